@@ -449,14 +449,17 @@ func runC04(args []string) error {
 			if fmt.Sprint(yd) != fmt.Sprint(gd) || yp != gp {
 				gs = fmt.Sprintf("(Some (%s, %s))", c04CoqDumps(gd), coqBool(gp))
 			}
-			cases = append(cases, fmt.Sprintf("(%d%%N, %s,\n  %s,\n  %s, %s, %s)", h.ID, c04CoqOps(h.Ops), c04CoqGrow(h.Grow), c04CoqDumps(yd), coqBool(yp), gs))
+			cases = append(cases, fmt.Sprintf("(%d%%N, %s,\n  (%s ++ gtab),\n  %s, %s, %s)", h.ID, c04CoqOps(h.Ops), c04CoqGrow(h.Grow), c04CoqDumps(yd), coqBool(yp), gs))
 		}
 	}
 
-	hdr := "From Verif Require Import Mem.GoStore Mem.ReflectModel Mem.Cases.\n"
+	// the growth policy of the Go run-time for the three element sizes, small capacities: inside a
+	// defect region yaegi's state leaves the state of the reference interpreter, so Y may need
+	// entries the generator never observed
+	hdr := "From Verif Require Import Mem.GoStore Mem.ReflectModel Mem.Cases.\nDefinition gtab : list (nat * nat * nat * nat) := " + c04GeneralGrow() + ".\n"
 	per := 15 // cases per file: one coqc each, 16 at a time
 	if *tier == "thorough" {
-		per = 100
+		per = 40 // about 400 MB per coqc
 	}
 	for k := 0; k*per < len(cases); k++ {
 		lo, hi := k*per, (k+1)*per
@@ -721,4 +724,38 @@ func c04OpsText(ops []*c04op) string {
 		}
 	}
 	return b.String()
+}
+
+func init() {
+	register("c04-case", "C04: regenerate one history, run yaegi, and write a Coq file that prints the dumps of Y next to yaegi's", func(args []string) error {
+		fs := flag.NewFlagSet("c04-case", flag.ExitOnError)
+		tier := fs.String("tier", "quick", "quick|thorough")
+		seed := fs.Uint64("seed", envSeed(), "seed")
+		id := fs.Int("id", 0, "history id")
+		out := fs.String("out", "", "output .v file")
+		fs.Parse(args)
+		h := c04Regenerate(*tier, *seed, *id)
+		if h == nil {
+			return fmt.Errorf("no history %d", *id)
+		}
+		y := runYaegi(h.Src, yaegiOpts{Timeout: 60 * time.Second})
+		fmt.Println(h.Src)
+		fmt.Println("// yaegi end:", y.End)
+		body := fmt.Sprintf("From Verif Require Import Mem.GoStore Mem.ReflectModel Mem.Cases.\nDefinition os : ops := %s.\nDefinition tab := %s ++ %s.\nDefinition yo := Eval vm_compute in (fst (y_ops (grow_of tab) init_st os), %s).\nPrint yo.\n",
+			c04CoqOps(h.Ops), c04CoqGrow(h.Grow), c04GeneralGrow(), c04CoqDumps(c04Dumps(y.Stdout)))
+		return os.WriteFile(*out, []byte(body), 0o644)
+	})
+}
+
+// c04GeneralGrow: the growth policy of the Go run-time for the three element sizes and small capacities.
+func c04GeneralGrow() string {
+	general := map[[3]int]int{}
+	for ek := 0; ek < 3; ek++ {
+		for c := 0; c <= 48; c++ {
+			for n := c + 1; n <= c+4; n++ {
+				general[[3]int{ek, c, n}] = c04RealGrow(ek, c, c, n)
+			}
+		}
+	}
+	return c04CoqGrow(general)
 }
